@@ -7,7 +7,7 @@ several filters / estimators / samplers of one method, methods with blanks; with
 non-linear constraint scaler and an objective scaler in the validation context), a full-precision stream, a stream
 without variables, and a malformed stream (wrong lengths, crossed bounds, non-positive or tiny weight sums, wrong /
 ragged coefficient columns, relative perturbations with infinite bounds, enum values out of range, zero perturbations /
-thresholds).  The real `EnOptConfig.model_validate` result is compared field by field with Model/Config.v `validate`
+thresholds, index arrays of a wrong length, arrays with one dimension too many).  The real `EnOptConfig.model_validate` result is compared field by field with Model/Config.v `validate`
 inside Coq.  Every accepted configuration is validated again (a) as the object itself, without and with the context
 (identical dump, object unchanged), (b) from `model_dump(round_trip=True)`, (c) from the JSON round trip of the dump,
 (d) from a dictionary holding the validated sub-objects, (e) a second round from the re-validated object, and (f) from
@@ -48,12 +48,14 @@ RULE = ("random valid configuration dictionaries: V in 1..6 variables (few-bit d
         "bounds and filter / estimator index arrays, every optimizer field (options {} / None / [] / nested values, methods with blanks), one or "
         "two filters / estimators / samplers also of the same method and with option dictionaries; validation context: a VariableScaler (scales "
         "and/or offsets) in 40 %, a non-linear constraint scaler in 35 % of the cases with such constraints, an objective scaler in 20 %; a "
-        "stream with full 53-bit values (weights, bounds, magnitudes, scales); a stream without variables (V = 0); malformed stream: 23 "
-        "corruptions of a valid dictionary (per-variable / per-constraint arrays of a length that cannot be broadcast, lower > upper in "
+        "stream with full 53-bit values (weights, bounds, magnitudes, scales); a stream without variables (V = 0); malformed stream: 27 "
+        "corruptions of a valid dictionary (index arrays of a length that is neither 1 nor the count, an array with one dimension too many in 12 "
+        "places, per-variable / per-constraint arrays of a length that cannot be broadcast, lower > upper in "
         "variable / linear / non-linear bounds also behind a scaler, weight sum zero, negative or positive but below eps, wrong / ragged / "
         "missing coefficient columns, relative perturbation with an infinite bound, enum values out of range, zero perturbations, zero "
         "threshold). Every accepted configuration is validated again as object (without / with the context), as model_dump(round_trip=True), "
-        "as the JSON round trip of the dump, as a dictionary of its validated sub-objects, a second round, and from a random re-spelling of "
+        "as the JSON round trip of the dump (json.loads and pydantic's model_validate_json), as a dictionary of its validated sub-objects, every "
+        "sub-object on its own in the context, a second round, and from a random re-spelling of "
         "the dictionary (case['spell']: tuples, ndarrays, numpy scalars, 0-d arrays, enum members, scalars written out, instances) whose "
         "arrays are overwritten afterwards; all resulting objects and a model_copy(update=..) are swept (setattr on every field of every "
         "reachable pydantic model; flags.writeable, element / whole-array / in-place-operator writes on every reachable ndarray). "
@@ -65,9 +67,9 @@ ASSUMPTIONS = [
     "rejects mutation = attribute assignment raises and in-place writes to every reachable array raise; explicit unfreezing (ndarray.setflags(write=True) by the owner, object.__setattr__, cfg._is_immutable = False, __dict__) is out of scope; deep copies / pickles of a validated object are not validated configurations",
     "scales of the VariableScaler and of the non-linear constraint scaler are positive and no linear-constraint row vanishes under the scaler (the model returns Unsupported otherwise; never generated)",
     "ropt defines only abstract non-linear-constraint / objective transforms: the harness supplies a scaler dividing the bounds by positive scales and an objective scaler (which must have no effect on validation)",
-    "inputs are finite (NaN / inf weights and NaN bounds pass the code's comparisons: reported as F18i, outside the domain); array fields are given with the documented dimension (a 2-D array for a 1-D field is accepted by the code: reported as F18d)",
-    "index arrays (realization_filters, function_estimators, samplers) are neither broadcast nor length-checked by the code (reported as F18h); they are covered by the frozenness sweep, the re-validation and the spelling comparison only",
-    "probes that alarm on the unchanged tree are written but switched off by module constants until the findings are decided: PROBE_DELATTR (F18e), PROBE_BASE (F18f), PROBE_SUBOBJECTS_WITH_CONTEXT and SPELL_WEIGHT_INSTANCES (F18g)",
+    "inputs are finite (NaN / inf weights and NaN bounds pass the code's comparisons: observation F18i, outside the domain of valid dictionaries, never generated)",
+    "index arrays (realization_filters, function_estimators, samplers) are modelled for their shape only (broadcast to one entry per variable / objective / constraint, other lengths rejected); that an index refers to a configured filter / estimator / sampler is not checked by the code and not part of the property",
+    "the dimension check of the converters is modelled through the generated table array type -> dimensions and the list of (array type, dimensions given) of a case; the values of an array given with too many dimensions never reach the model (flattened)",
     "frozenness is a run-time fact about Python objects: the model carries it as the generated _mutable()/_immutable() call sequences and array-store sources, and the sweep observes it",
 ]
 TRUSTED = [
@@ -96,14 +98,28 @@ class ImmutableBaseModel(BaseModel):
         super().__setattr__(name, value)
 '''
 
-# the same class with attribute deletion guarded as well (the repair proposed for finding F18e: `del cfg.gradient` is
-# accepted today); the translator accepts either shape and records which one the tree has
-_EXPECTED_IMMUTABLE_BASE_DEL = _EXPECTED_IMMUTABLE_BASE + '''
+# optional members of ImmutableBaseModel (exact shapes): the guarded __delattr__ (fix 34c3340, F18e) and the helper the
+# after-validators use to leave an already validated instance alone (fix a3ecaf8, F18g); the translator records which exist
+_EXPECTED_IMMUTABLE_BASE_OPTIONAL = '''
+class ImmutableBaseModel(BaseModel):
     def __delattr__(self, name: str) -> None:
         if self._is_immutable:
             msg = f"{self.__class__.__name__} is immutable"
             raise AttributeError(msg)
         super().__delattr__(name)
+
+    def _is_validated(self) -> bool:
+        private = self.__pydantic_private__
+        return bool(private is not None and private.get("_is_immutable"))
+'''
+
+# `if self._is_validated(): return self` as the first statement of an after-validator, and the wrap validator of EnOptConfig
+_EXPECTED_GUARD = "if self._is_validated():\n    return self"
+_EXPECTED_PASS_THROUGH = '''
+def _pass_enopt_config_unchanged(self, handler: Any) -> Any:
+    if isinstance(self, EnOptConfig):
+        return self
+    return handler(self)
 '''
 
 CONFIG_FILES = ["_enopt_config.py", "_variables_config.py", "_objective_functions_config.py", "_realizations_config.py",
@@ -162,10 +178,16 @@ def _mentions_flag(node, self_only=True):
     return False
 
 
+def _is_guard(st):
+    return ast.dump(st) == ast.dump(ast.parse(_EXPECTED_GUARD).body[0])
+
+
 def _items(stmts, where, depth=0):
     from translator import TranslatorError
     out = []
     for st in stmts:
+        if depth == 0 and _is_guard(st):
+            continue
         c = _flag_call(st)
         if c is not None:
             out.append(("call", c))
@@ -188,6 +210,9 @@ def _is_validator(fn):
         if name in ("model_validator", "field_validator"):
             return True
     return False
+
+
+_GUARDS, _PASS_THROUGH = {}, set()      # filled by _class_entry: (class, validator) -> starts with the guard; classes with the wrap validator
 
 
 def _class_entry(cls, fname):
@@ -223,7 +248,17 @@ def _class_entry(cls, fname):
             raise TranslatorError(f"{cls.name}: class-level assignment other than model_config (line {st.lineno})")
         if isinstance(st, ast.FunctionDef):
             if _is_validator(st):
-                validators.append((st.name, _items(st.body, f"{cls.name}.{st.name}")))
+                body = _strip_docstrings(st).body
+                if any(_is_guard(x) for x in body[1:]) or any(_is_guard(x) for b in body for x in ast.walk(b) if x is not b):
+                    raise TranslatorError(f"{cls.name}.{st.name}: the _is_validated() guard is not the first statement")
+                validators.append((st.name, _items(body, f"{cls.name}.{st.name}")))
+                _GUARDS[(cls.name, st.name)] = bool(body) and _is_guard(body[0])
+                want_pt = _strip_docstrings(ast.parse(_EXPECTED_PASS_THROUGH).body[0])
+                mode = [k.value.value for d in st.decorator_list if isinstance(d, ast.Call) for k in d.keywords
+                        if k.arg == "mode" and isinstance(k.value, ast.Constant)]
+                if mode == ["wrap"] and cls.name == "EnOptConfig" and ast.dump(ast.Module(body=body, type_ignores=[])) == \
+                        ast.dump(ast.Module(body=want_pt.body, type_ignores=[])) and [a.arg for a in st.args.args] == ["self", "handler"]:
+                    _PASS_THROUGH.add(cls.name)
             elif _mentions_flag(st):
                 raise TranslatorError(f"{cls.name}.{st.name}: a non-validator method touches the immutability flag of self")
         elif isinstance(st, (ast.AsyncFunctionDef, ast.ClassDef)) and _mentions_flag(st, self_only=False):
@@ -247,6 +282,8 @@ def immutable_array(
     **kwargs: Any,
 ) -> NDArray[Any]:
     array = np.array(array_like, **kwargs)
+    if array.base is not None:
+        array = array.copy()
     array.setflags(write=False)
     return array
 
@@ -264,6 +301,28 @@ def broadcast_1d_array(array: NDArray[Any], name: str, size: int) -> NDArray[Any
     except ValueError as err:
         msg = f"{name} cannot be broadcasted to a length of {size}"
         raise ValueError(msg) from err
+'''
+
+# immutable_array before fix bf727e8 (F18f): it freezes whatever np.array returns, which is a view of a writable array when
+# ndmin adds a dimension.  Still accepted by the translator (the flag discipline is the same) but recorded in
+# Gen_C18.immutable_array_owns_data, over which Props/C18.v states a theorem, and probed at run time (.base chain).
+_EXPECTED_IMMUTABLE_ARRAY_OLD = '''
+def immutable_array(
+    array_like: ArrayLike,
+    **kwargs: Any,
+) -> NDArray[Any]:
+    array = np.array(array_like, **kwargs)
+    array.setflags(write=False)
+    return array
+'''
+
+# the dimension check of the converters (fix c92fea2, F18d)
+_EXPECTED_CHECK_NDIM = '''
+def _check_ndim(array: NDArray[Any], ndim: int) -> NDArray[Any]:
+    if array.ndim != ndim:
+        msg = f"expected an array of dimension {ndim}, got dimension {array.ndim}"
+        raise ValueError(msg)
+    return array
 '''
 
 _DIRECT_SOURCES = {"immutable_array": "SImmutableArray", "normalize": "SNormalize", "broadcast_1d_array": "SBroadcast1d"}
@@ -327,9 +386,30 @@ def _array_stores(cls, array_fields):
             continue
         where = f"{cls.name}.{fn.name}"
         construct_names = set()
+        # for name in ("a", "b"): ... setattr(self, name, <expr>) ...   = a store of <expr> into self.a and self.b
+        loop_names = {}
         for n in ast.walk(fn):
-            if isinstance(n, ast.Call) and isinstance(n.func, ast.Name) and n.func.id in ("setattr", "vars"):
-                raise TranslatorError(f"{where}: setattr()/vars() in a configuration class")
+            if isinstance(n, ast.For) and isinstance(n.target, ast.Name) and isinstance(n.iter, (ast.Tuple, ast.List)) \
+                    and n.iter.elts and all(isinstance(e, ast.Constant) and isinstance(e.value, str) for e in n.iter.elts) and not n.orelse:
+                for inner in ast.walk(n):
+                    if inner is not n and isinstance(inner, (ast.Assign, ast.AugAssign, ast.NamedExpr, ast.For)) and any(
+                            isinstance(t, ast.Name) and t.id == n.target.id for t in ast.walk(inner.targets[0] if isinstance(inner, ast.Assign) else inner.target)):
+                        raise TranslatorError(f"{where}: the loop variable {n.target.id} is rebound")
+                    if isinstance(inner, ast.Call) and isinstance(inner.func, ast.Name) and inner.func.id == "setattr":
+                        loop_names[id(inner)] = [e.value for e in n.iter.elts]
+        for n in ast.walk(fn):
+            if isinstance(n, ast.Call) and isinstance(n.func, ast.Name) and n.func.id == "setattr":
+                ok = (id(n) in loop_names and len(n.args) == 3 and not n.keywords and isinstance(n.args[0], ast.Name) and n.args[0].id == "self"
+                      and isinstance(n.args[1], ast.Name))
+                if not ok:
+                    raise TranslatorError(f"{where}: setattr() in a form that is not `for name in (<literals>): setattr(self, name, expr)`")
+                for f in loop_names[id(n)]:
+                    if f in array_fields:
+                        stores.append((fn.name, f, _classify(n.args[2], fn, array_fields)))
+                    else:
+                        raise TranslatorError(f"{where}: setattr() on {f}, which is not an array field")
+            if isinstance(n, ast.Call) and isinstance(n.func, ast.Name) and n.func.id == "vars":
+                raise TranslatorError(f"{where}: vars() in a configuration class")
             if isinstance(n, ast.Attribute) and n.attr in ("__dict__", "__setattr__", "__pydantic_private__") and fn.name != "__setattr__":
                 raise TranslatorError(f"{where}: {n.attr} used in a configuration class")
             if isinstance(n, (ast.Assign, ast.AugAssign, ast.AnnAssign)):
@@ -385,12 +465,35 @@ def _array_tables(tr):
     from translator import TranslatorError
     utils = tr.parse("config/utils.py")
     want = {n.name: ast.dump(_strip_docstrings(n)) for n in ast.parse(_EXPECTED_UTILS).body}
+    old_ia = ast.dump(_strip_docstrings(ast.parse(_EXPECTED_IMMUTABLE_ARRAY_OLD).body[0]))
+    owns_data = True
     for n in utils.body:
         if isinstance(n, ast.FunctionDef) and n.name in want:
-            if ast.dump(_strip_docstrings(n)) != want.pop(n.name):
+            got = ast.dump(_strip_docstrings(n))
+            if n.name == "immutable_array" and got == old_ia:
+                owns_data = False
+                want.pop(n.name)
+            elif got != want.pop(n.name):
                 raise TranslatorError(f"config/utils.py: {n.name} does not have the expected shape")
     if want:
         raise TranslatorError(f"config/utils.py: {sorted(want)} not found")
+    check_ndim = [n for n in utils.body if isinstance(n, ast.FunctionDef) and n.name == "_check_ndim"]
+    if check_ndim and ast.dump(_strip_docstrings(check_ndim[0])) != ast.dump(_strip_docstrings(ast.parse(_EXPECTED_CHECK_NDIM).body[0])):
+        raise TranslatorError("config/utils.py: _check_ndim does not have the expected shape")
+
+    def converted(expr):
+        """(source, ndim) of the expression a converter returns: immutable_array(x, .., ndmin=K) -> (SImmutableArray, None);
+        _check_ndim(immutable_array(x, .., ndmin=K), K) -> (SImmutableArray, K); anything else -> (SOther, None)"""
+        def ndmin_of(call):
+            ks = [k.value.value for k in call.keywords if k.arg == "ndmin" and isinstance(k.value, ast.Constant)]
+            return ks[0] if len(ks) == 1 and isinstance(ks[0], int) else None
+        if _is_call_to(expr, "immutable_array"):
+            return "SImmutableArray", None
+        if _is_call_to(expr, "_check_ndim") and check_ndim and len(expr.args) == 2 and not expr.keywords \
+                and _is_call_to(expr.args[0], "immutable_array") and isinstance(expr.args[1], ast.Constant) \
+                and isinstance(expr.args[1].value, int) and ndmin_of(expr.args[0]) == expr.args[1].value:
+            return "SImmutableArray", expr.args[1].value
+        return "SOther", None
     conv = {}
     for n in utils.body:
         if isinstance(n, ast.FunctionDef) and n.name.startswith("_convert_") and "array" in n.name:
@@ -403,7 +506,7 @@ def _array_tables(tr):
                   and isinstance(body[1], ast.Return) and body[1].value is not None)
             if not ok:
                 raise TranslatorError(f"config/utils.py: {n.name} does not have the shape `if x is None: return x; return <expr>`")
-            conv[n.name] = "SImmutableArray" if _is_call_to(body[1].value, "immutable_array") else "SOther"
+            conv[n.name] = converted(body[1].value)
     vt = tr.parse("config/validated_types.py")
     aliases = []
     for n in vt.body:
@@ -414,10 +517,10 @@ def _array_tables(tr):
                   and len(v.slice.elts[1].args) == 1 and isinstance(v.slice.elts[1].args[0], ast.Name))
             if not ok or v.slice.elts[1].args[0].id not in conv:
                 raise TranslatorError(f"validated_types.py: {n.targets[0].id} is not Annotated[..., BeforeValidator(_convert_*array*)]")
-            aliases.append((n.targets[0].id, conv[v.slice.elts[1].args[0].id]))
+            aliases.append((n.targets[0].id,) + conv[v.slice.elts[1].args[0].id])
     if not aliases:
         raise TranslatorError("validated_types.py: no Array* types found")
-    alias_names = {a for a, _ in aliases}
+    alias_names = {a for a, _, _ in aliases}
     class_names = set()
     for f in CONFIG_FILES:
         class_names |= {n.name for n in tr.parse("config/enopt/" + f).body if isinstance(n, ast.ClassDef)}
@@ -443,7 +546,21 @@ def _array_tables(tr):
               and any(isinstance(x, ast.Name) and x.id in alias_names for x in ast.walk(st.annotation))]
         fields.append((cls.name, af))
         stores += [(cls.name, site, fld, srcs) for site, fld, srcs in _array_stores(cls, set(af))]
-    return aliases, fields, stores
+    return aliases, fields, stores, owns_data
+
+
+def _instance_defaults(tr, immutable_classes):
+    out = []
+    for f in CONFIG_FILES:
+        cls = [n for n in tr.parse("config/enopt/" + f).body if isinstance(n, ast.ClassDef)][0]
+        for st in cls.body:
+            if isinstance(st, ast.AnnAssign) and isinstance(st.target, ast.Name) and st.value is not None:
+                for n in ast.walk(st.value):
+                    # C(...) anywhere in the default expression, except as `default_factory=C` (a name, not a call)
+                    if isinstance(n, ast.Call) and isinstance(n.func, ast.Name) and n.func.id in immutable_classes:
+                        out.append((cls.name, st.target.id))
+                        break
+    return out
 
 
 def translate(repo):
@@ -454,14 +571,27 @@ def translate(repo):
     found = [n for n in utils.body if isinstance(n, ast.ClassDef) and n.name == "ImmutableBaseModel"]
     if len(found) != 1:
         raise TranslatorError("ImmutableBaseModel not found in config/utils.py")
-    got = ast.dump(_strip_docstrings(found[0]))
-    want = ast.dump(_strip_docstrings(ast.parse(_EXPECTED_IMMUTABLE_BASE).body[0]))
-    want_del = ast.dump(_strip_docstrings(ast.parse(_EXPECTED_IMMUTABLE_BASE_DEL).body[0]))
-    if got not in (want, want_del):
-        raise TranslatorError("ImmutableBaseModel (_immutable/_mutable/__setattr__[/__delattr__]) does not have the expected shape")
-    guards_delete = got == want_del
+    base = _strip_docstrings(found[0])
+    want_cls = _strip_docstrings(ast.parse(_EXPECTED_IMMUTABLE_BASE).body[0])
+    optional = {n.name: ast.dump(n) for n in _strip_docstrings(ast.parse(_EXPECTED_IMMUTABLE_BASE_OPTIONAL).body[0]).body}
+    required = [ast.dump(n) for n in want_cls.body]
+    if [ast.dump(b) for b in base.bases] != [ast.dump(b) for b in want_cls.bases] or base.keywords or base.decorator_list:
+        raise TranslatorError("ImmutableBaseModel: unexpected bases / decorators")
+    members = [ast.dump(n) for n in base.body if not (isinstance(n, ast.FunctionDef) and n.name in optional)]
+    if members != required:
+        raise TranslatorError("ImmutableBaseModel (_is_immutable/_immutable/_mutable/__setattr__) does not have the expected shape")
+    have = {}
+    for n in base.body:
+        if isinstance(n, ast.FunctionDef) and n.name in optional:
+            if ast.dump(n) != optional[n.name] or n.name in have:
+                raise TranslatorError(f"ImmutableBaseModel.{n.name} does not have the expected shape")
+            have[n.name] = True
+    guards_delete = "__delattr__" in have
+    has_validated = "_is_validated" in have
     # 2. per class: kind and the flag-call items of every validator, in definition order
     entries = []
+    _GUARDS.clear()
+    _PASS_THROUGH.clear()
     for f in CONFIG_FILES:
         tree = tr.parse("config/enopt/" + f)
         classes = [n for n in tree.body if isinstance(n, ast.ClassDef)]
@@ -497,18 +627,33 @@ def translate(repo):
     out += ["].", "",
             "(* ImmutableBaseModel also defines the guarded __delattr__ (attribute deletion raises once the flag is set) *)",
             f"Definition immutable_base_guards_delete : bool := {'true' if guards_delete else 'false'}.", "",
+            "(* re-validation of an instance: every after-validator that calls _mutable() / _immutable(), whether it starts with",
+            "   `if self._is_validated(): return self` (the helper exists: " + ("yes" if has_validated else "NO") + "), and the classes whose wrap validator returns an instance untouched *)",
+            "Definition mutating_validators : list (string * (string * bool)) := ["
+            + "; ".join(f'("{c}", ("{v}", {"true" if (_GUARDS.get((c, v)) and has_validated) else "false"}))'
+                        for c, _k, vs in entries for v, items in vs if items) + "].",
+            "Definition instance_pass_through : list string := [" + "; ".join(f'"{c}"' for c in sorted(_PASS_THROUGH)) + "].",
+            "(* fields whose default is an INSTANCE of an ImmutableBaseModel class (`x: C = C()`): pydantic deep-copies such a default for",
+            "   every validation, numpy's deepcopy drops the read-only flag, and the guard above returns the copy unchanged *)",
+            "Definition instance_defaults : list (string * string) := ["
+            + "; ".join(f'("{c}", "{f}")' for c, f in _instance_defaults(tr, {n for n, k, _ in entries if k == "KImmutableBase"})) + "].", "",
             "Definition gen_enums : enums := {|",
             f"  vt_lo := {min(vt.values())}%Z; vt_hi := {max(vt.values())}%Z;",
             f"  pt_lo := {min(pt.values())}%Z; pt_hi := {max(pt.values())}%Z;",
             f"  bt_lo := {min(bt.values())}%Z; bt_hi := {max(bt.values())}%Z;",
             f"  pt_abs := {pt['ABSOLUTE']}%Z; pt_rel := {pt['RELATIVE']}%Z |}}.", ""]
     # 4. arrays: converting types, array fields per class, and every store into an array field with its sources
-    aliases, fields, stores = _array_tables(tr)
+    aliases, fields, stores, owns_data = _array_tables(tr)
     if not stores:
         raise TranslatorError("no array stores found in the configuration classes")
     out += ["(* validated_types.py: array type, what its BeforeValidator converter returns *)",
             "Definition array_converters : list (string * asrc) := ["
-            + "; ".join(f'("{a}", {s})' for a, s in aliases) + "].", "",
+            + "; ".join(f'("{a}", {s})' for a, s, _ in aliases) + "].", "",
+            "(* ... and the number of dimensions its converter insists on (np.array(.., ndmin=k) followed by _check_ndim(.., k)); None = unchecked *)",
+            "Definition array_ndims : list (string * option nat) := ["
+            + "; ".join(f'("{a}", {"None" if k is None else f"Some {k}%nat"})' for a, _, k in aliases) + "].", "",
+            "(* immutable_array copies a result of np.array that is a view, so the frozen array owns its data (no writable .base) *)",
+            f"Definition immutable_array_owns_data : bool := {'true' if owns_data else 'false'}.", "",
             "(* per class: the fields declared with one of these array types *)",
             "Definition array_fields : list (string * list string) := [",
             ";\n".join(f'  ("{c}", [' + "; ".join(f'"{x}"' for x in af) + "])" for c, af in fields), "].", "",
@@ -718,7 +863,8 @@ def _bad_len(rng, n):
 
 CORRUPTIONS = ["var_len", "var_cross", "obj_weights", "real_weights", "weights_below_eps", "lin_cols", "lin_len", "lin_cross",
                "lin_ragged", "lin_empty", "nonlin_len", "nonlin_cross", "relative_inf", "ptype_enum", "btype_enum", "vtype_enum",
-               "mag_len", "btype_len", "ptype_len", "types_len", "zero_perturbations", "pmin_zero", "mask_len"]
+               "mag_len", "btype_len", "ptype_len", "types_len", "zero_perturbations", "pmin_zero", "mask_len",
+               "samplers_len", "obj_index_len", "nl_index_len", "ndim"]
 
 
 def corrupt(rng, case, what):
@@ -808,6 +954,55 @@ def corrupt(rng, case, what):
         grad.setdefault("number_of_perturbations", 3)
     elif what == "mask_len":
         var["mask"] = [True] * _bad_len(rng, V)
+    elif what == "samplers_len":                                   # fix 2477cc1: one sampler index per variable
+        cfg.setdefault("samplers", [{"method": "norm"}])
+        grad["samplers"] = [0] * _bad_len(rng, V)
+    elif what == "obj_index_len":
+        obj = cfg.setdefault("objectives", {})
+        n = len(_as_list(obj.get("weights", 1.0)))
+        key = rng.choice(["realization_filters", "function_estimators"])
+        obj[key] = [-1 if key == "realization_filters" else 0] * _bad_len(rng, n)
+    elif what == "nl_index_len":
+        n = rng.choice([2, 3])
+        key = rng.choice(["realization_filters", "function_estimators"])
+        cfg["nonlinear_constraints"] = {"lower_bounds": [0.0] * n, "upper_bounds": rng.choice([1.0, [1.0] * n]),
+                                        key: [-1 if key == "realization_filters" else 0] * _bad_len(rng, n)}
+        case["nl_scales"] = None
+    elif what == "ndim":                                           # fix c92fea2: one dimension too many
+        which = rng.choice(["initial", "initial_row", "bounds", "obj_weights", "real_weights", "mags", "mask", "types", "btypes",
+                            "samplers", "nonlinear", "coefficients"])
+        if which == "initial":
+            var["initial_values"] = [[0.5, 1.0], [1.5, 2.0]]          # four numbers in two rows; bounds that fit four variables
+            var.pop("lower_bounds", None), var.pop("upper_bounds", None), var.pop("types", None), var.pop("mask", None)
+            cfg["gradient"] = {"number_of_perturbations": 2}
+            cfg.pop("linear_constraints", None)
+            case["scaler"] = None
+        elif which == "initial_row":
+            var["initial_values"] = [_as_list(var["initial_values"])]   # shape (1, V)
+        elif which == "bounds":
+            key = rng.choice(["lower_bounds", "upper_bounds"])
+            var[key] = [[(-9.0 if key == "lower_bounds" else 9.0)] * V]
+            var.setdefault("lower_bounds", -9.0), var.setdefault("upper_bounds", 9.0)
+        elif which in ("obj_weights", "real_weights"):
+            sect = "objectives" if which == "obj_weights" else "realizations"
+            w = _as_list(cfg.get(sect, {}).get("weights", 1.0))
+            cfg.setdefault(sect, {})["weights"] = rng.choice([[w], [[x] for x in w]])
+        elif which == "mags":
+            grad["perturbation_magnitudes"] = [[0.25] * V]
+        elif which == "mask":
+            var["mask"] = [[True] * V]
+        elif which == "types":
+            var["types"] = [[1] * V]
+        elif which == "btypes":
+            grad["boundary_types"] = [[2] * V]
+        elif which == "samplers":
+            cfg.setdefault("samplers", [{"method": "norm"}])
+            grad["samplers"] = [[0] * V]
+        elif which == "nonlinear":
+            cfg["nonlinear_constraints"] = {"lower_bounds": [[0.0, 0.0]], "upper_bounds": rng.choice([1.0, [[1.0], [2.0]]])}
+            case["nl_scales"] = None
+        else:
+            cfg["linear_constraints"] = {"coefficients": [[[1.0] for _ in range(V)]], "lower_bounds": 0.0, "upper_bounds": 1.0}
     case["kind"] = "malformed:" + what
     return case
 
@@ -858,6 +1053,10 @@ def _fields(c):
                       "upper": lst(c.linear_constraints.upper_bounds)}
     if c.nonlinear_constraints is not None:
         out["nonlin"] = {"lower": lst(c.nonlinear_constraints.lower_bounds), "upper": lst(c.nonlinear_constraints.upper_bounds)}
+    nlc = c.nonlinear_constraints
+    out["ix"] = {"samplers": lst(c.gradient.samplers), "obj_rf": lst(c.objectives.realization_filters),
+                 "obj_fe": lst(c.objectives.function_estimators), "nl_rf": None if nlc is None else lst(nlc.realization_filters),
+                 "nl_fe": None if nlc is None else lst(nlc.function_estimators)}
     shapes = {k: list(np.shape(v)) for k, v in (("initial", c.variables.initial_values), ("lower", c.variables.lower_bounds),
                                                 ("upper", c.variables.upper_bounds), ("mags", c.gradient.perturbation_magnitudes),
                                                 ("ptypes", c.gradient.perturbation_types), ("btypes", c.gradient.boundary_types),
@@ -866,19 +1065,16 @@ def _fields(c):
     return out
 
 
-# F18e (reported, not yet decided): `del cfg.gradient` is accepted on every ImmutableBaseModel configuration object because only
-# __setattr__ is guarded.  The probe below is complete and is switched on by this constant once the tree guards __delattr__
-# (the translator already accepts that shape, Gen_C18.immutable_base_guards_delete); until then it would alarm on HEAD.
-PROBE_DELATTR = False
-# F18f (reported): immutable_array(x, ndmin=k) freezes a *view* when ndmin adds a dimension (a flat coefficient list, a scalar or 0-d
-# array for a 1-D field); its writable base is reachable through `.base` and writes to it change the stored array.
-PROBE_BASE = False
-# F18g (reported): pydantic runs the after-validators of an ImmutableBaseModel again when an already validated instance is
-# validated (directly, or as a value inside a dictionary), so a frozen sub-configuration is re-normalised / re-transformed IN PLACE.
-# Without a context this stays within WEIGHT_TOL (probed: "parts"); spelling a weight section as an instance (double
-# normalisation, a few ulp) and re-validating the sub-objects in the transform context (values transformed twice) alarm on HEAD.
-SPELL_WEIGHT_INSTANCES = False
-PROBE_SUBOBJECTS_WITH_CONTEXT = False
+# Probes for the defects found by the audit of this property and repaired in /repo (known_findings.json, `fixed`); each is
+# detected again when its commit is reverted (corpus/C18/F18*.json hold a failing input for each).  The constants exist so that a
+# probe can be switched off while a tree that is known to fail it is being examined; they are all on.
+PROBE_DELATTR = True                  # F18e, fix 34c3340: `del cfg.gradient` was accepted (only __setattr__ was guarded)
+PROBE_BASE = True                     # F18f, fix bf727e8: immutable_array(x, ndmin=k) froze a view of a writable array (.base)
+# F18g, fix a3ecaf8 + default_factory follow-up: pydantic runs the after-validators of an ImmutableBaseModel again when an already
+# validated instance is validated (directly, or as a value inside a dictionary), so a frozen sub-configuration was re-normalised /
+# re-transformed IN PLACE; the guard `if self._is_validated(): return self` in turn must never meet a deep-copied default instance
+SPELL_WEIGHT_INSTANCES = True         # a weight section spelled as an instance: no second normalisation
+PROBE_SUBOBJECTS_WITH_CONTEXT = True  # every sub-object validated again in the transform context: same values, tree unchanged
 
 
 def sweep(obj, path="cfg", classes=None, arrays=None, accepted=None, seen=None, sig=None, owner=None, afields=None):
@@ -994,19 +1190,19 @@ def _diff(a, b, path="", tol=0.0, wtol=None):
 
 
 # ---- the same dictionary spelled differently ------------------------------------------------------------------------------
-# (section, field) -> kind of the array field: f float, b bool, i index (never broadcast), e<enum class> enumeration, F 2-D float;
-# the second entry says which length a scalar stands for (V variables, R rows of the coefficient matrix, N non-linear constraints)
+# (section, field) -> kind of the array field: f float, b bool, i index, e<enum class> enumeration, F 2-D float; the second entry
+# says which length a scalar stands for (V variables, O objectives, R rows of the coefficient matrix, N non-linear constraints)
 _SPELL_FIELDS = {
     ("variables", "initial_values"): ("f", None), ("variables", "lower_bounds"): ("f", "V"), ("variables", "upper_bounds"): ("f", "V"),
     ("variables", "types"): ("eVariableType", "V"), ("variables", "mask"): ("b", "V"),
-    ("objectives", "weights"): ("f", None), ("objectives", "realization_filters"): ("i", None),
-    ("objectives", "function_estimators"): ("i", None), ("realizations", "weights"): ("f", None),
+    ("objectives", "weights"): ("f", None), ("objectives", "realization_filters"): ("i", "O"),
+    ("objectives", "function_estimators"): ("i", "O"), ("realizations", "weights"): ("f", None),
     ("gradient", "perturbation_magnitudes"): ("f", "V"), ("gradient", "perturbation_types"): ("ePerturbationType", "V"),
-    ("gradient", "boundary_types"): ("eBoundaryType", "V"), ("gradient", "samplers"): ("i", None),
+    ("gradient", "boundary_types"): ("eBoundaryType", "V"), ("gradient", "samplers"): ("i", "V"),
     ("linear_constraints", "coefficients"): ("F", None), ("linear_constraints", "lower_bounds"): ("f", "R"),
     ("linear_constraints", "upper_bounds"): ("f", "R"),
     ("nonlinear_constraints", "lower_bounds"): ("f", "N"), ("nonlinear_constraints", "upper_bounds"): ("f", "N"),
-    ("nonlinear_constraints", "realization_filters"): ("i", None), ("nonlinear_constraints", "function_estimators"): ("i", None),
+    ("nonlinear_constraints", "realization_filters"): ("i", "N"), ("nonlinear_constraints", "function_estimators"): ("i", "N"),
 }
 
 
@@ -1027,7 +1223,7 @@ def respell(cfg, seed):
     given = []
     V = len(_as_list(cfg["variables"].get("initial_values", 0.0)))
     lin, nl = cfg.get("linear_constraints"), cfg.get("nonlinear_constraints")
-    full = {"V": V, "R": len(_coeffs(lin)) if lin else 0,
+    full = {"V": V, "O": len(_as_list(cfg.get("objectives", {}).get("weights", 1.0))), "R": len(_coeffs(lin)) if lin else 0,
             "N": max(len(_as_list(nl["lower_bounds"])), len(_as_list(nl["upper_bounds"]))) if nl else 0}
     dtypes = {"f": np.float64, "F": np.float64, "b": np.bool_, "i": np.intc}
 
@@ -1052,7 +1248,7 @@ def respell(cfg, seed):
             choices.append("member")
         if scalar or (len(flat) == 1 and kind != "F"):
             choices += ["npscalar", "zerod", "unit"]
-            if length and full[length] > 0 and V > 0:
+            if length and full[length] > 0 and (V > 0 or length != "V"):
                 choices += ["expand", "expand"]
         how = rng.choice(choices)
         if kind == "F" and how == "tuple":
@@ -1193,6 +1389,7 @@ def run_impl(case):
 
     c_dump = again("dump", lambda: EnOptConfig.model_validate(c.model_dump(round_trip=True)), WEIGHT_TOL)
     again("json", lambda: EnOptConfig.model_validate(json.loads(json.dumps(plain))), WEIGHT_TOL)
+    again("jsontext", lambda: EnOptConfig.model_validate_json(json.dumps(plain)), WEIGHT_TOL)     # pydantic's own JSON parser
     # a dictionary holding the validated sub-objects themselves (what `{**dict(cfg), "optimizer": ...}` produces)
     again("parts", lambda: EnOptConfig.model_validate({k: getattr(c, k) for k in type(c).model_fields}), WEIGHT_TOL)
     # validating any configuration object of the tree again, in the same context, returns an equivalent object and leaves the
@@ -1278,6 +1475,51 @@ def _coeffs(lin):
     return [list(r) if isinstance(r, (list, tuple)) else [r] for r in A]
 
 
+_TYPE_OF_KIND = {"f": "Array1D", "F": "Array2D", "b": "Array1DBool", "i": "Array1DInt", "e": "ArrayEnum"}
+
+
+def _depth(x):
+    return 0 if not isinstance(x, (list, tuple)) else 1 + max([_depth(v) for v in x] + [0])
+
+
+def _flat(x):
+    """all numbers of a (possibly nested) value, in order"""
+    return [y for v in x for y in _flat(v)] if isinstance(x, (list, tuple)) else [x]
+
+
+def _dims(cfg):
+    """(array type, dimensions of the value given) for every array field present in the dictionary"""
+    out = []
+    for (sect, field), (kind, _length) in _SPELL_FIELDS.items():
+        if cfg.get(sect) is not None and cfg[sect].get(field) is not None:
+            out.append((_TYPE_OF_KIND[kind[0]], _depth(cfg[sect][field])))
+    return out
+
+
+def _model_view(cfg):
+    """The dictionary as the model's raw record sees it: arrays given with too many dimensions are flattened (the model rejects
+    such a case through its dimension table before it looks at the values)."""
+    cfg = copy.deepcopy(cfg)
+    for (sect, field), (kind, _length) in _SPELL_FIELDS.items():
+        if cfg.get(sect) is not None and cfg[sect].get(field) is not None:
+            x = cfg[sect][field]
+            if kind == "F" and _depth(x) > 2:
+                cfg[sect][field] = [_flat(r) for r in x]
+            elif kind != "F" and _depth(x) > 1:
+                cfg[sect][field] = _flat(x)
+    return cfg
+
+
+def _ix_term(cfg):
+    g, o, nl = cfg.get("gradient", {}), cfg.get("objectives", {}), cfg.get("nonlinear_constraints") or {}
+    return (f"(mk_ix {_oz(g.get('samplers'))} {_oz(o.get('realization_filters'))} {_oz(o.get('function_estimators'))} "
+            f"{_oz(nl.get('realization_filters'))} {_oz(nl.get('function_estimators'))})")
+
+
+def _dims_term(cfg):
+    return cq.lst(f"({cq.s(t)}, {cq.nat(d)})" for t, d in _dims(cfg))
+
+
 def _raw_term(cfg):
     var = cfg["variables"]
     vars_t = (f"(mk_vars {cq.qs(_as_list(var.get('initial_values', 0.0)))} {cq.ers(_as_list(var.get('lower_bounds', -INF)))} "
@@ -1305,7 +1547,9 @@ def _obs_term(f):
     grad_t = f"(mk_grad {cq.nat(f['P'])} {_onat(f['pmin'])} {cq.qs(f['mags'])} {cq.zs(f['ptypes'])} {cq.zs(f['btypes'])})"
     lin_t = "None" if f["lin"] is None else f"(Some (mk_lin {cq.qmat(f['lin']['coeffs'])} {cq.ers(f['lin']['lower'])} {cq.ers(f['lin']['upper'])}))"
     nl_t = "None" if f["nonlin"] is None else f"(Some (mk_nonlin {cq.ers(f['nonlin']['lower'])} {cq.ers(f['nonlin']['upper'])}))"
-    return f"(Some (mk_config {vars_t} {cq.qs(f['obj_w'])} {cq.qs(f['real_w'])} {_onat(f['rmin'])} {grad_t} {lin_t} {nl_t}))"
+    ix = f["ix"]
+    ix_t = f"(mk_ix {_oz(ix['samplers'])} {_oz(ix['obj_rf'])} {_oz(ix['obj_fe'])} {_oz(ix['nl_rf'])} {_oz(ix['nl_fe'])})"
+    return f"(Some (mk_config {vars_t} {cq.qs(f['obj_w'])} {cq.qs(f['real_w'])} {_onat(f['rmin'])} {grad_t} {lin_t} {nl_t}, {ix_t}))"
 
 
 def _magnitude(x):
@@ -1319,13 +1563,14 @@ def _magnitude(x):
 
 
 def coq_case(case, obs):
-    cfg = case["cfg"]
+    cfg = _model_view(case["cfg"])
     sc = case["scaler"]
     ctx = "None" if sc is None else (f"(Some (mk_scaler {cq.opt(sc['scales'], cq.qs)} {cq.opt(sc['offsets'], cq.qs)}))")
     ctx += " " + cq.opt(case.get("nl_scales"), cq.qs)
     S = max(1.0, _magnitude({k: cfg.get(k) for k in ("variables", "linear_constraints", "nonlinear_constraints")}),
             _magnitude(sc or {}))
     S = S * S * 4      # bounds are shifted by offsets and A.offsets and divided by scales >= 1/2
+    ctx += f" {_dims_term(case['cfg'])} {_ix_term(cfg)}"
     if obs["outcome"] != "ok":
         return f"(Build_case {cq.q(S)} false {ctx} {_raw_term(cfg)} None false None None None [] (0%nat, 0%nat) [])"
     spell = obs["spell"] if case.get("spell") else obs["fields"]
@@ -1340,7 +1585,7 @@ def coq_case(case, obs):
     for t in (_obs_term(obs["fields"]), _obs_term(obs["dump"]), _obs_term(obs["json"]), _obs_term(spell)):
         if t not in names:
             names[t] = f"o{len(names)}"
-            lets.append(f"let {names[t]} : option config := {t} in")
+            lets.append(f"let {names[t]} : option (config * indices) := {t} in")
     o_out, o_dump, o_json, o_spell = (names[_obs_term(x)] for x in (obs["fields"], obs["dump"], obs["json"], spell))
     return (f"({' '.join(lets)} Build_case {cq.q(S)} false {ctx} {_raw_term(cfg)} {o_out} {cq.b(obs['same'])} "
             f"{o_dump} {o_json} {o_spell} {classes} "
@@ -1348,9 +1593,19 @@ def coq_case(case, obs):
 
 
 def _representable(f):
-    """Every field that is a rational in the model is finite, every bound is not NaN."""
+    """Every array has the dimension of its field, every field that is a rational in the model is finite, every bound is not NaN."""
     if f is None:
         return True
+    flat = [f["initial"], f["lower"], f["upper"], f["obj_w"], f["real_w"], f["mags"], f["ptypes"], f["btypes"], f["types"], f["mask"]]
+    flat += list(f["ix"].values())
+    if f["nonlin"] is not None:
+        flat += [f["nonlin"]["lower"], f["nonlin"]["upper"]]
+    if f["lin"] is not None:
+        flat += [f["lin"]["lower"], f["lin"]["upper"]] + list(f["lin"]["coeffs"])
+        if _depth(f["lin"]["coeffs"]) != 2:
+            return False
+    if any(x is not None and _depth(x) != 1 for x in flat):
+        return False
 
     def fin(xs):
         return all(math.isfinite(x) for x in xs)
@@ -1373,10 +1628,15 @@ def _bcast(x, n):
 
 def _expect_reject(case):
     """Is the dictionary inconsistent in one of the ways the property text names?  (independent of the model)"""
+    reasons = []
+    for t, d in _dims(case["cfg"]):
+        if d > (2 if t == "Array2D" else 1):
+            reasons.append(f"{t} given with {d} dimensions")
+    if reasons:
+        return reasons
     cfg = case["cfg"]
     var = cfg["variables"]
     V = len(_as_list(var.get("initial_values", 0.0)))
-    reasons = []
 
     def bad_len(x, n):
         return x is not None and len(_as_list(x)) not in (1, n)
@@ -1421,6 +1681,17 @@ def _expect_reject(case):
             n = max(len(a), len(b))
             if any(x > y for x, y in zip(_bcast(a, n), _bcast(b, n))):
                 reasons.append("non-linear lower > upper")
+            for key in ("realization_filters", "function_estimators"):
+                if n > 0 and nl.get(key) is not None and len(_as_list(nl[key])) not in (1, n):
+                    reasons.append("non-linear " + key + " length")
+    nobj = len(_as_list(cfg.get("objectives", {}).get("weights", 1.0)))
+    for key in ("realization_filters", "function_estimators"):
+        x = cfg.get("objectives", {}).get(key)
+        if x is not None and len(_as_list(x)) not in (1, nobj):
+            reasons.append("objectives " + key + " length")
+    smp = g.get("samplers")
+    if V > 0 and smp is not None and len(_as_list(smp)) not in (1, V):
+        reasons.append("gradient.samplers length")
     return reasons
 
 
@@ -1463,6 +1734,15 @@ def oracle(case, obs):
     g = cfg.get("gradient", {})
     if "boundary_types" in g and f["btypes"] != _bcast(g["boundary_types"], V):
         return {"clause": "broadcast-values", "detail": {"btypes": f["btypes"], "raw": g["boundary_types"]}}
+    # index arrays: one entry per variable / objective / constraint, the given vector or the repeated scalar
+    nlc_raw = cfg.get("nonlinear_constraints") or {}
+    n_nl = 0 if f["nonlin"] is None else len(f["nonlin"]["lower"])
+    for key, raw_ix, n in (("samplers", g.get("samplers"), V), ("obj_rf", cfg.get("objectives", {}).get("realization_filters"), len(f["obj_w"])),
+                           ("obj_fe", cfg.get("objectives", {}).get("function_estimators"), len(f["obj_w"])),
+                           ("nl_rf", nlc_raw.get("realization_filters"), n_nl), ("nl_fe", nlc_raw.get("function_estimators"), n_nl)):
+        got = f["ix"][key]
+        if (raw_ix is None) != (got is None) or (got is not None and got != [int(v) for v in _bcast1d(raw_ix, n)]):
+            return {"clause": "index-array-broadcast", "detail": {key: got, "raw": raw_ix, "n": n}}
     if case["scaler"] is None:
         for name, key, dflt in (("lower", "lower_bounds", -INF), ("upper", "upper_bounds", INF)):
             if f[name] != [float(x) for x in _bcast1d(var.get(key, dflt), V)]:
@@ -1514,7 +1794,7 @@ def oracle(case, obs):
     # idempotence
     if not obs["same"]:
         return {"clause": "revalidating-the-object-equivalent-and-unchanged", "detail": obs["same_diff"][:6]}
-    for tag in ("dump", "json", "parts"):
+    for tag in ("dump", "json", "jsontext", "parts"):
         if obs[tag + "_diff"]:
             return {"clause": "revalidation-of-" + tag + "-equivalent", "detail": obs[tag + "_diff"][:6]}
     if obs.get("sub_diff"):
@@ -1610,7 +1890,7 @@ def extra_obligations(tier):
         from pydantic import BaseModel
         from ropt.config.enopt import EnOptConfig
         from ropt.config.utils import ImmutableBaseModel
-        aliases, fields, _stores = _array_tables(tr_mod)
+        _aliases, fields, _stores, _owns = _array_tables(tr_mod)
         table_fields = {c: set(af) for c, af in fields}
         kinds = {}
         for f in CONFIG_FILES:
@@ -1663,7 +1943,7 @@ def extra_obligations(tier):
 
 
 MANIFEST = {
-    "level_text": ("Machine-checked Coq proofs (Props/C18.v, 33 theorems, all closed under the global context, for every number of variables, "
+    "level_text": ("Machine-checked Coq proofs (Props/C18.v, 43 theorems, all closed under the global context, for every number of variables, "
                    "objectives, realizations and constraints, by induction) about the executable model of EnOptConfig validation that the "
                    "checker runs against the real code (Model/Config.v: normalize, broadcasts, threshold clamps, VariablesConfig, "
                    "GradientConfig.fix_perturbations, LinearConstraintsConfig.apply_transformation, NonlinearConstraintsConfig, with an optional "
@@ -1676,13 +1956,16 @@ MANIFEST = {
                    "bound range, stored as ABSOLUTE), C18_clamped (thresholds = min(threshold, count)), C18_crossed_iff + "
                    "C18_rejects_crossed_{variable,linear,nonlinear}_bounds, C18_rejects_bad_{variable,gradient,linear,nonlinear}_shapes, "
                    "C18_rejects_relative_infinite, C18_rejects_bad_gradient_fields, and conversely C18_consistent_accepted (every consistent "
-                   "dictionary is accepted). Stable: C18_validated_canonical, C18_canonical_fixed_point, C18_idempotent (+ "
+                   "dictionary is accepted); for the whole of model_validate (validate_full = dimension check of the converters, validate, "
+                   "broadcast of the index arrays): C18_full_is_validate, C18_index_arrays_broadcast, C18_rejects_bad_index_shapes, "
+                   "C18_rejects_extra_dimensions + C18_array_types_check_dimensions, C18_full_idempotent. Stable: C18_validated_canonical, C18_canonical_fixed_point, C18_idempotent (+ "
                    "C18_idempotent_generated, C18_generated_enums_wf for the enumeration values of the current source): validating the dump of any "
                    "validated configuration succeeds and yields the same configuration up to == on the weights, again canonical; "
                    "C18_stable_under_repeated_revalidation (any number of hand-offs), C18_equivalence_relation; C18_magnitudes_not_rescaled (fix "
                    "8967086: no stored type is RELATIVE, magnitudes and bounds are returned unchanged). Frozen (flag discipline): "
-                   "C18_flags_final_immutable, C18_arrays_stored_immutable, C18_array_types_converted (finite facts over tables regenerated from the "
-                   "source on every run), C18_flag_discipline / C18_last_mutable_not_frozen (the flag machine, all validator sequences). Tied to the "
+                   "C18_flags_final_immutable, C18_arrays_stored_immutable, C18_array_types_converted, C18_deletion_guarded, "
+                   "C18_immutable_arrays_own_data, C18_revalidation_guarded, C18_no_shared_default_instances (finite facts over tables regenerated "
+                   "from the source on every run), C18_flag_discipline / C18_last_mutable_not_frozen (the flag machine, all validator sequences). Tied to the "
                    "code on every run by an in-Coq field-by-field comparison with the real EnOptConfig.model_validate on random, full-precision, "
                    "empty and malformed dictionaries; re-validation of the object (without / with context), its dump, the JSON round trip, the "
                    "dictionary of its sub-objects, a second round and a re-spelled dictionary (exact comparison of whole dumps, array dtypes and "
@@ -1694,15 +1977,13 @@ MANIFEST = {
                    "order and numpy honours the flag is established only by the run-time sweep over the generated configurations (every "
                    "reachable model: setattr on each field raises; every reachable ndarray: flags.writeable is False and element, whole-array and "
                    "in-place-operator writes raise; every field holding an array is in the generated table; the tables agree with pydantic's "
-                   "run-time view of the classes). No theorem is partial otherwise. NOT alarmed on, reported as findings and probed only "
-                   "behind module constants that are off: attribute deletion is accepted (F18e), arrays created with ndmin keep a writable "
-                   ".base (F18f), validating an already validated sub-configuration object re-runs its validators in place (F18g). Modelled, not "
+                   "run-time view of the classes; attribute deletion raises; no array in a .base chain is writable; validating any sub-object again "
+                   "in the context changes nothing). No theorem is partial otherwise. Modelled, not "
                    "verified: pydantic's field conversions and validator order, numpy broadcasting, the VariableScaler formulas (compared on "
                    "every run); C18_consistent_accepted, C18_perturbations_converted are stated without a transform in the context, the "
                    "rejection / canonical-form / spelling / idempotence theorems with any context. Out of the model: optimizer / sampler option "
-                   "dictionaries (user data), the index arrays realization_filters / function_estimators / samplers (not broadcast by the code, "
-                   "F18h; swept, re-validated and re-spelled only), NaN inputs (F18i) and 2-D arrays for 1-D fields (F18d) (accepted by the code, "
-                   "outside the domain of valid dictionaries). Trusted: Coq kernel + VM, the AST translator, the Python driver. Reals are "
+                   "dictionaries (user data), the range of the index arrays, NaN inputs (F18i: accepted by the code, outside the domain of valid "
+                   "dictionaries). Trusted: Coq kernel + VM, the AST translator, the Python driver. Reals are "
                    "compared with tolerance (1e-12*S + 1e-9*|m|) against the model, exactly between validations of the same configuration "
                    "(1e-14 on re-normalised weights); discrete fields, shapes, dtypes, flags and outcomes exactly."),
     "technique": ("Coq proof (monadic validation model over Q and extended reals; canonical-form, rejection, completeness, spelling and fixed-point "
